@@ -22,11 +22,21 @@ def flags(c):
     return (1 if xs else 0) | (2 if xc else 0)
 
 
-def table_for(chars):
+def table_for(chars, lookups=()):
+    """the oracle table handed to the model: code point, XID flags and unicodedata.name of every character, plus
+    (flags -1) one lookup-only entry per name in `lookups` that unicodedata.lookup resolves to a single character
+    under another name than unicodedata.name gives (aliases such as FF, LF, NUL)"""
     ents = []
     for c in sorted(set(chars) | {"S", "_"}):
         nm = unicodedata.name(c, "")
         ents.append("%d:%d:%s" % (ord(c), flags(c), ",".join(str(ord(x)) for x in nm)))
+    for nm in sorted(set(lookups)):
+        try:
+            c = unicodedata.lookup(nm)
+        except (KeyError, ValueError):
+            continue
+        if len(c) == 1 and unicodedata.name(c, "") != nm:
+            ents.append("%d:-1:%s" % (ord(c), ",".join(str(ord(x)) for x in nm)))
     return ";".join(ents)
 
 
